@@ -1,8 +1,181 @@
-/- line-protocol handlers for C01 (stub: not built yet) -/
+/- line-protocol handlers for C01 (trivialization maps).
+Floats cross the protocol as binary64 bit patterns (decimal `UInt64`), lists `;`-separated, complex entries `re,im`.
+`r`/`c` selects the real / complex branch.  The external routines are the textbook implementations of
+`Numqi.Manifold.Num`. -/
 import Driver.Loop
+import NumqiModel.Manifold
 
 namespace Numqi.Driver.C01
+open Numqi Numqi.Manifold
 
-def handle (_args : List String) : String := "bad-op"
+def parseFloats? (s : String) : Option (Array Float) :=
+  if s = "" || s = "-" then some #[] else
+    (s.splitOn ";").foldlM (fun acc t => do let n ← t.toNat?; pure (acc.push (Float.ofBits (UInt64.ofNat n)))) #[]
+
+def parseCF? (s : String) : Option CF :=
+  match s.splitOn "," with
+  | [a, b] => do let x ← a.toNat?; let y ← b.toNat?; pure ⟨Float.ofBits (UInt64.ofNat x), Float.ofBits (UInt64.ofNat y)⟩
+  | _ => none
+
+def parseCFs? (s : String) : Option (Array CF) :=
+  if s = "" || s = "-" then some #[] else (s.splitOn ";").foldlM (fun acc t => do let z ← parseCF? t; pure (acc.push z)) #[]
+
+def fstr (x : Float) : String := toString x.toBits.toNat
+def cstr (z : CF) : String := s!"{fstr z.re},{fstr z.im}"
+def outR (l : List Float) : String := ";".intercalate (l.map fstr)
+def outC (l : List CF) : String := ";".intercalate (l.map cstr)
+
+def vecR (n : Nat) (f : Nat → Float) : String := outR ((List.range n).map f)
+def vecC (n : Nat) (f : Nat → CF) : String := outC ((List.range n).map f)
+
+def isRC (s : String) : Bool := s = "r" || s = "c"
+def flag? (s : String) : Option Bool := if s = "1" then some true else if s = "0" then some false else none
+
+def outM (m n : Nat) (M : NMat CF) : String :=
+  outC ((List.range m).flatMap fun i => (List.range n).map fun j => M.get i j)
+
+def handle (args : List String) : String :=
+  match args with
+  | ["softplus", t] => Id.run do
+      let some θ := parseFloats? t | return "bad-op"
+      return vecR θ.size fun i => softplus (θ.getD i 0)
+  | ["exp", t] => Id.run do
+      let some θ := parseFloats? t | return "bad-op"
+      return vecR θ.size fun i => expMap (θ.getD i 0)
+  | ["interval", lu, t] => Id.run do
+      let some lu := parseFloats? lu | return "bad-op"
+      let some θ := parseFloats? t | return "bad-op"
+      if lu.size ≠ 2 then return "bad-op"
+      return vecR θ.size fun i => openInterval (θ.getD i 0) (lu.getD 0 0) (lu.getD 1 0)
+  | [op, rc, t] => Id.run do
+      -- vector maps
+      if !isRC rc then return "bad-op"
+      let some θ := parseFloats? t | return "bad-op"
+      let n := θ.size
+      let f : Nat → Float := fun i => θ.getD i 0
+      if n = 0 then return "bad-op"
+      match op with
+      | "ball" =>
+        if rc = "r" then return vecR n (ballVec n f)
+        if n % 2 ≠ 0 then return "bad-op"
+        return vecC (n / 2) (pairCx (K := CF) (n / 2) (ballVec n f))
+      | "sphq" =>
+        if rc = "r" then return vecR n (sphereQuotientVec n f)
+        if n % 2 ≠ 0 then return "bad-op"
+        return vecC (n / 2) (pairCx (K := CF) (n / 2) (sphereQuotientVec n f))
+      | "sphc" =>
+        if rc = "r" then return vecR (n + 1) (sphereCoordVec n f)
+        if (n + 1) % 2 ≠ 0 then return "bad-op"
+        return vecC ((n + 1) / 2) (pairCx (K := CF) ((n + 1) / 2) (sphereCoordVec n f))
+      | "softmax" => if rc = "r" then return vecR n (softmaxVec n f) else return "bad-op"
+      | "psphere" => if rc = "r" then return vecR n (probSphereVec n f) else return "bad-op"
+      | _ => return "bad-op"
+  | ["socay", dim, order, rc, t] => Id.run do
+      if !isRC rc then return "bad-op"
+      let some dim := dim.toNat? | return "bad-op"
+      let some order := order.toNat? | return "bad-op"
+      let some θ := parseFloats? t | return "bad-op"
+      let f : Nat → Float := fun i => θ.getD i 0
+      let isReal := rc = "r"
+      if dim < 2 || order = 0 then return "bad-op"
+      if θ.size ≠ (if isReal then dim * (dim - 1) / 2 else dim * dim - 1) then return "bad-op"
+      return outM dim dim (soCayley (K := CF) Num.inv (cfScalars dim) dim order isReal f)
+  | ["choi", din, dout, cr, x] => Id.run do
+      let some din := din.toNat? | return "bad-op"
+      let some dout := dout.toNat? | return "bad-op"
+      let some cr := cr.toNat? | return "bad-op"
+      let some x := parseCFs? x | return "bad-op"
+      if x.size ≠ cr * dout * din || din = 0 then return "bad-op"
+      let X : NMat CF := NMat.ofFn (cr * dout) din fun r c => x.getD (r * din + c) 0
+      let C := choiOfKraus cr (krausOfStiefel dout X)
+      return outC ((List.range dout).flatMap fun o => (List.range din).flatMap fun i =>
+        (List.range dout).flatMap fun o' => (List.range din).map fun i' => C o i o' i')
+  | [op, dim, rank, rc, t] => Id.run do
+      if !isRC rc then return "bad-op"
+      let some dim := dim.toNat? | return "bad-op"
+      let some rank := rank.toNat? | return "bad-op"
+      let some θ := parseFloats? t | return "bad-op"
+      let f : Nat → Float := fun i => θ.getD i 0
+      let isReal := rc = "r"
+      if dim = 0 || rank = 0 || rank > dim then return "bad-op"
+      let N0 := rank * (2 * dim - rank + 1) / 2
+      match op with
+      | "psdchol" =>
+        if θ.size ≠ (if isReal then N0 else 2 * N0 - rank) then return "bad-op"
+        return outM dim dim (psdCholesky (K := CF) dim rank isReal f)
+      | "psdens" =>
+        if θ.size ≠ (if isReal then rank + dim * rank else rank + 2 * dim * rank) then return "bad-op"
+        return outM dim dim (psdEnsemble (K := CF) dim rank isReal f)
+      | "stpolar" =>
+        if θ.size ≠ (if isReal then dim * rank else 2 * dim * rank) then return "bad-op"
+        return outM dim rank (stiefelPolar (K := CF) Num.invSqrt dim rank isReal f)
+      | "stqr" =>
+        if θ.size ≠ (if isReal then dim * rank else 2 * dim * rank) then return "bad-op"
+        return outM dim rank (stiefelQR (K := CF) Num.qrQ dim rank isReal f)
+      | "stchol" =>
+        let n := dim * rank - rank * (rank + 1) / 2
+        if θ.size ≠ (if isReal then n else 2 * n) then return "bad-op"
+        return outM dim rank (stiefelCholL (K := CF) Num.cholesky Num.inv dim rank isReal f)
+      | _ => return "bad-op"
+  | ["steuler", dim, rank, rc, ph, t] => Id.run do
+      if !isRC rc then return "bad-op"
+      let some dim := dim.toNat? | return "bad-op"
+      let some rank := rank.toNat? | return "bad-op"
+      let some ph := flag? ph | return "bad-op"
+      let some θ := parseFloats? t | return "bad-op"
+      let f : Nat → Float := fun i => θ.getD i 0
+      let isReal := rc = "r"
+      if dim = 0 || rank = 0 || rank > dim then return "bad-op"
+      let n := dim * rank - rank * (rank + 1) / 2
+      if θ.size ≠ (if isReal then n else if ph then 2 * n + rank else 2 * n) then return "bad-op"
+      if isReal && ph then return "bad-op"
+      return outM dim rank (stiefelEuler (K := CF) dim rank isReal ph f)
+  | ["sym", dim, rc, t0, n1, t] => Id.run do
+      if !isRC rc then return "bad-op"
+      let some dim := dim.toNat? | return "bad-op"
+      let some t0 := flag? t0 | return "bad-op"
+      let some n1 := flag? n1 | return "bad-op"
+      let some θ := parseFloats? t | return "bad-op"
+      let f : Nat → Float := fun i => θ.getD i 0
+      let isReal := rc = "r"
+      if dim < 2 then return "bad-op"
+      let n := (if isReal then dim * (dim + 1) / 2 else dim * dim) - (if t0 then 1 else 0)
+      if θ.size ≠ n then return "bad-op"
+      return outM dim dim (symmetricMatrix (K := CF) (cfScalars dim) dim isReal t0 n1 f)
+  | ["soexp", dim, rc, t] => Id.run do
+      if !isRC rc then return "bad-op"
+      let some dim := dim.toNat? | return "bad-op"
+      let some θ := parseFloats? t | return "bad-op"
+      let f : Nat → Float := fun i => θ.getD i 0
+      let isReal := rc = "r"
+      if dim < 2 then return "bad-op"
+      if θ.size ≠ (if isReal then dim * (dim - 1) / 2 else dim * dim - 1) then return "bad-op"
+      return outM dim dim (soExp (K := CF) Num.expm (cfScalars dim) dim isReal f)
+  | ["sogen", dim, rc, t] => Id.run do
+      if !isRC rc then return "bad-op"
+      let some dim := dim.toNat? | return "bad-op"
+      let some θ := parseFloats? t | return "bad-op"
+      let f : Nat → Float := fun i => θ.getD i 0
+      let isReal := rc = "r"
+      if dim < 2 then return "bad-op"
+      if θ.size ≠ (if isReal then dim * (dim - 1) / 2 else dim * dim - 1) then return "bad-op"
+      return outM dim dim (soGenerator (K := CF) (cfScalars dim) dim isReal f)
+  | ["sepdm", dA, dB, n, tp, ta, tb] => Id.run do
+      let some dA := dA.toNat? | return "bad-op"
+      let some dB := dB.toNat? | return "bad-op"
+      let some n := n.toNat? | return "bad-op"
+      let some tp := parseFloats? tp | return "bad-op"
+      let some ta := parseFloats? ta | return "bad-op"
+      let some tb := parseFloats? tb | return "bad-op"
+      if tp.size ≠ n || ta.size ≠ n * 2 * dA || tb.size ≠ n * 2 * dB || n = 0 then return "bad-op"
+      let p : NMat CF := NMat.ofFn 1 n fun _ k => ofReal (softmaxVec n (fun i => tp.getD i 0) k)
+      let a : NMat CF := NMat.ofFn n dA fun k i =>
+        pairCx (K := CF) dA (sphereQuotientVec (2 * dA) fun q => ta.getD (k * 2 * dA + q) 0) i
+      let b : NMat CF := NMat.ofFn n dB fun k i =>
+        pairCx (K := CF) dB (sphereQuotientVec (2 * dB) fun q => tb.getD (k * 2 * dB + q) 0) i
+      let R := separableDM n (fun k => p.get 0 k) a b
+      return outC ((List.range dA).flatMap fun i => (List.range dB).flatMap fun j =>
+        (List.range dA).flatMap fun i' => (List.range dB).map fun j' => R i j i' j')
+  | _ => "bad-op"
 
 end Numqi.Driver.C01
